@@ -253,6 +253,27 @@ def doc_level(ctx, scns):
             break
     rows2, tr2 = pass_p(ctx, fam, scns, rows, tr, "scn")
     pass_c(ctx, fam, rows2, tr2, "scn", len(split_behaviours(rows2, fam)))
+    resync_level(ctx)
+
+
+RESYNC_SCNS = [{"mode": "resync", "reject": False, "steps": [{"a": "Env", "k": "other"}] * n + [{"a": "Cas", "k": "ok"}],
+                "ctr": 0, "used": [], "pubDoc": [], "pubRel": []} for n in (0, 1, 2)]
+
+
+def resync_level(ctx):
+    """the resync write with regenerate_sequences is a document write too ("all document write outcomes ... CAS retry"):
+    ResyncDocument on a real database, 0..2 writers committing between its callback and its CAS write.  The ledger is
+    judged by the property predicates only (pass P: Monotone, DocAccounted on the recorded real ledger); SeqDoc.tla has no
+    transcription of this write yet, so there is no pass C for it."""
+    fam = DOC
+    tr, rows = replay(ctx, fam, RESYNC_SCNS, "rs")
+    segs = split_behaviours(rows, fam)
+    if len(segs) != len(RESYNC_SCNS):
+        raise Inconclusive("C07 doc harness recorded %d of %d resync scenarios" % (len(segs), len(RESYNC_SCNS)))
+    ctx.cov["evaluations"] += len(RESYNC_SCNS)
+    ctx.cov["resync_regen_scenarios"] = len(RESYNC_SCNS)
+    ctx.cov["distinct_nontrivial"] += len(RESYNC_SCNS) - 1
+    pass_p(ctx, fam, RESYNC_SCNS, rows, tr, "rs")
 
 
 def run(ctx):
